@@ -404,6 +404,24 @@ Definition e_run_conn (v : uval) : uval := vlist vcout (run_conn (getbool (arg 0
 (* [cycles in; observed cycles out] *)
 Definition e_P11 (v : uval) : uval := vbool (P11 (map getcin (getL (arg 0 v))) (map getcout (getL (arg 1 v)))).
 
+(* event-level model: events [0] fault | [1; ok] open result | [2] back-off over | [3] new device;
+   log entries [0] new | [1; i] down | [2] close | [3; ok] open | [4] back-off | [5] start-master | [6; i] up *)
+From PV Require Import Model.ConnSM.
+Definition getcev (v : uval) : cev :=
+  match getN (arg 0 v) with 0%N => EFault | 1%N => EOpen (getbool (arg 1 v)) | 2%N => EBackoff | _ => ENewDevice end.
+Definition vlev11 (e : ConnSM.lev) : uval :=
+  match e with
+  | LNew => VL [vN 0] | LDown i => VL [vN 1; vnat i] | LClose => VL [vN 2] | LOpen ok => VL [vN 3; vbool ok]
+  | LBackoff => VL [vN 4] | LStartMaster => VL [vN 5] | LUp i => VL [vN 6; vnat i]
+  end.
+Definition getlev11 (v : uval) : ConnSM.lev :=
+  match getN (arg 0 v) with
+  | 0%N => LNew | 1%N => LDown (getnat (arg 1 v)) | 2%N => LClose | 3%N => LOpen (getbool (arg 1 v))
+  | 4%N => LBackoff | 5%N => LStartMaster | _ => LUp (getnat (arg 1 v))
+  end.
+Definition e_sm_log (v : uval) : uval := vlist vlev11 (clog (crun true true (map getcev (getL v)))).
+Definition e_mon11 (v : uval) : uval := vbool (mon_ok (map getlev11 (getL v))).
+
 (* ---- C12 ---- *)
 From PV Require Import Model.Shutdown Spec.C12.
 Definition getcstate (v : uval) : cstate :=
